@@ -256,6 +256,99 @@ def sim(arg):
     return bad
 
 
+def live_self_after_fork(_arg=None):
+    """the pre-fork worker pattern: psutil is imported, the program forks, the child configures ITSELF through Process() with
+    no pid.  What it sets must land on the child, what it reads must be the child's, and the parent stays as it was."""
+    try:
+        seams().uninstall()
+    except Exception:  # noqa: BLE001
+        pass
+    import psutil
+    bad = []
+    parent_before = (os.getpriority(os.PRIO_PROCESS, 0), sorted(os.sched_getaffinity(0)), resource.getrlimit(resource.RLIMIT_NOFILE))
+    r, wfd = os.pipe()
+    pid = os.fork()
+    if pid == 0:
+        try:
+            os.close(r)
+            me = psutil.Process()
+            out = {"pid_seen": me.pid, "getpid": os.getpid()}
+            me.nice(os.getpriority(os.PRIO_PROCESS, 0) + 3)
+            cpus = sorted(os.sched_getaffinity(0))
+            me.cpu_affinity(cpus[:1])
+            soft, hard = resource.getrlimit(resource.RLIMIT_NOFILE)
+            me.rlimit(psutil.RLIMIT_NOFILE, (max(16, soft - 7), hard))
+            out["kernel"] = (os.getpriority(os.PRIO_PROCESS, 0), sorted(os.sched_getaffinity(0)), list(resource.getrlimit(resource.RLIMIT_NOFILE)))
+            out["psutil"] = (me.nice(), me.cpu_affinity(), list(me.rlimit(psutil.RLIMIT_NOFILE)))
+            out["want"] = (parent_before[0] + 3, cpus[:1], [max(16, soft - 7), hard])
+            os.write(wfd, json.dumps(out).encode())
+        except BaseException as e:  # noqa: BLE001
+            os.write(wfd, json.dumps({"error": repr(e)}).encode())
+        finally:
+            os._exit(0)
+    os.close(wfd)
+    data = b""
+    while True:
+        chunk = os.read(r, 65536)
+        if not chunk:
+            break
+        data += chunk
+    os.close(r)
+    os.waitpid(pid, 0)
+    out = json.loads(data or b"{}")
+    parent_after = (os.getpriority(os.PRIO_PROCESS, 0), sorted(os.sched_getaffinity(0)), resource.getrlimit(resource.RLIMIT_NOFILE))
+    if "error" in out or not out:
+        bad.append(("fork-self:child-failed", repr(out)))
+    else:
+        if out["pid_seen"] != out["getpid"]:
+            bad.append(("fork-self:Process()-is-not-the-calling-process", "after fork, Process().pid in the child is %s" % ("the PARENT's pid" if out["pid_seen"] == os.getpid() else "neither the child's nor the parent's pid")))
+        if [out["kernel"][0], out["kernel"][1], out["kernel"][2]] != [out["want"][0], out["want"][1], out["want"][2]]:
+            bad.append(("fork-self:settings-did-not-land-on-the-child", "kernel says %r for the child, requested %r" % (out["kernel"], out["want"])))
+        if list(out["psutil"]) != list(out["kernel"]):
+            bad.append(("fork-self:get-differs-from-kernel", "psutil %r kernel %r" % (out["psutil"], out["kernel"])))
+    if parent_after != parent_before:
+        bad.append(("fork-self:parent-changed", "parent %r -> %r" % (parent_before, parent_after)))
+        try:
+            os.setpriority(os.PRIO_PROCESS, 0, parent_before[0])
+            os.sched_setaffinity(0, parent_before[1])
+            resource.setrlimit(resource.RLIMIT_NOFILE, parent_before[2])
+        except Exception:  # noqa: BLE001
+            pass
+    return bad
+
+
+def debug_badstderr():
+    """PSUTIL_DEBUG=1 with an unwritable stderr (closed / full): an invalid CPU list is still a ValueError"""
+    code = ("import os, sys, psutil\n"
+            "try:\n"
+            "    psutil.Process().cpu_affinity([4000])\n"
+            "    r = 'no-exception'\n"
+            "except ValueError:\n"
+            "    r = 'ValueError'\n"
+            "except BaseException as e:\n"
+            "    r = type(e).__name__ + ':' + str(e)\n"
+            "os.write(3, r.encode())\n")
+    bad = []
+    for label, stderr_target in (("full", "/dev/full"), ("closed", None)):
+        r, wfd = os.pipe()
+        env = dict(os.environ, PSUTIL_DEBUG="1")
+
+        def pre(wfd=wfd, tgt=stderr_target):
+            os.dup2(wfd, 3)
+            if tgt is None:
+                os.close(2)
+            else:
+                os.dup2(os.open(tgt, os.O_WRONLY), 2)
+        p = subprocess.Popen([sys.executable, "-c", code], env=env, preexec_fn=pre, close_fds=False, stdout=subprocess.DEVNULL)
+        os.close(wfd)
+        p.wait()
+        out = os.read(r, 4096).decode()
+        os.close(r)
+        if out != "ValueError":
+            bad.append(("debug-bad-stderr:invalid-cpu-list-not-ValueError", "PSUTIL_DEBUG=1, stderr %s: cpu_affinity([4000]) -> %r" % (label, out)))
+    return bad
+
+
 def sim_get(arg):
     """the get forms against every answer the (simulated) kernel can give, including ones psutil itself can never set
     (class NONE with a level, as kernels before 5.20 report for tasks that never set an I/O priority)"""
@@ -292,6 +385,10 @@ def sim_get_cases(thorough):
     for r in (1, 2, 8) + ((3, 4) if thorough else ()):
         cases += [("affinity", list(c)) for c in itertools.combinations(range(8), r)]
     return cases
+
+
+def _call0(fn):
+    return fn()
 
 
 def bigkernel_cases(thorough):
@@ -455,6 +552,10 @@ def run(ctx):
     for c, bad in zip(gc_, ctx.pmap(sim_get, gc_)):
         for cause, msg in bad:
             viols.append({"cause": cause, "msg": msg, "case": {"get": list(c)}})
+    if not ctx.alt:
+        for fn_, tag_ in ((live_self_after_fork, "fork-self"), (debug_badstderr, "debug-badstderr")):
+            for cause, msg in ctx.pmap_fresh(_call0, [fn_])[0]:
+                viols.append({"cause": cause, "msg": msg, "case": {"special": tag_}})
     bk = bigkernel_cases(ctx.thorough) if not ctx.alt else []
     for c, bad in zip(bk, bigkernel(bk)):
         for cause, msg in bad:
@@ -484,6 +585,8 @@ def replay(ctx, case):
         bad = sim_oneshot(case["oneshot"])
     elif "get" in case:
         bad = sim_get(tuple(case["get"]))
+    elif "special" in case:
+        bad = (live_self_after_fork if case["special"] == "fork-self" else debug_badstderr)()
     elif "bigkernel" in case:
         bad = bigkernel([case["bigkernel"]])[0]
     elif "refusal" in case:
